@@ -12,7 +12,8 @@
 (*   quoted] [k |-> "res"] ("?") [k |-> "dup", n |-> count, args |-> ...] (Intel DUP), and rep |-> n on an         *)
 (*   argument for the Motorola repeat prefix [n].                                                                *)
 (* Modes md: [big |-> target byte order for this statement, padding |-> PADDING ON, pcodd |-> statement starts   *)
-(*   at an odd address, cs |-> name of the active CHARSET map].                                                  *)
+(*   at an odd address, cs |-> name of the active CHARSET map, lg |-> list granularity of the assembling target  *)
+(*   (only consulted by Devs: the documented layout does not depend on it)].                                     *)
 EXTENDS Naturals, Integers, Sequences, FiniteSets, Limb64, IEEE
 
 (* ---- statement kinds ---------------------------------------------------------------------------------------- *)
@@ -147,7 +148,8 @@ ArgR(st, a, md, big) ==
         CASE a.k = "int" -> IntElem(st, a.v, big)
           [] a.k = "flt" -> FltElem(st, a.v, big)
           [] a.k = "str" -> StrElems(st, a, md, big)
-          [] a.k = "res" -> [k |-> "res", n |-> IF st.fam = "ti" THEN (IF st.w = 4 THEN 4 ELSE 2) ELSE st.w]
+          [] a.k = "res" -> IF st.fam = "ti" \/ st.ty = "str" THEN UnsR              \* "?" is documented for DC and Dx only
+                            ELSE [k |-> "res", n |-> st.w]
           [] a.k = "dup" -> IF st.fam # "intel" THEN UnsR
                             ELSE LET inner == ConcatR([i \in 1..Len(a.args) |-> ArgR(st, a.args[i], md, big)])
                                  IN IF inner.k = "b" THEN BytesR(RepeatSeq(inner.b, a.n))
@@ -174,17 +176,27 @@ Layout(sname, args, md) ==
      ELSE [k |-> "reserve", pad |-> pad, n |-> body.n]
 
 (* ---- named deviations of the pinned implementation -------------------------------------------------------------*)
-\* half precision below the normal range is truncated (ieeefloat.c Double_2_ieee2)
 RECURSIVE FlatArgs(_)
 FlatArgs(args) == IF args = <<>> THEN <<>>
                   ELSE (IF Head(args).k = "dup" THEN FlatArgs(Head(args).args) ELSE <<Head(args)>>) \o FlatArgs(Tail(args))
+IsZeroArg(a) == (a.k = "flt" /\ a.v.m = 0) \/ (a.k = "int" /\ IsZero(a.v))
+CharwiseStr(st, a) == a.k = "str" /\ ~(a.sq /\ Len(a.cs) <= st.w /\ Len(a.cs) <= 4)
 Devs(sname, args, md) ==
   LET st == StmtTable[sname]
       fa == FlatArgs(args)
-  IN (IF st.fmt = "half" /\ \E i \in 1..Len(fa) : fa[i].k = "flt" /\ fa[i].v.m # 0 /\ HalfCodeBits(fa[i].v, FALSE) # HalfBits(fa[i].v)
+  IN \* half precision below the normal range is truncated, not rounded (ieeefloat.c Double_2_ieee2)
+     (IF st.fmt = "half" /\ \E i \in 1..Len(fa) : fa[i].k = "flt" /\ fa[i].v.m # 0 /\ HalfCodeBits(fa[i].v, FALSE) # HalfBits(fa[i].v)
       THEN {"half_subnormal"} ELSE {})
-     \cup (IF st.fam = "intel" /\ st.w \in {2, 4, 8}
-              /\ \E i \in 1..Len(fa) : fa[i].k = "str" /\ ~(fa[i].sq /\ Len(fa[i].cs) <= st.w /\ Len(fa[i].cs) <= 4)
-                                       /\ \E j \in 1..Len(fa[i].cs) : MapChar(md.cs, fa[i].cs[j]) > 127
-           THEN {"intel_char_sign"} ELSE {})
+     \* a character code above 127 of a string is sign-extended into a 16/32/64-bit element
+     \* (intpseudo.c LayoutWord/DoubleWord/QuadWord, motpseudo.c DecodeMotoADR: plain `char`)
+     \cup (IF ((st.fam = "intel" /\ st.w \in {2, 4, 8}) \/ (st.fam = "m68" /\ st.w = 2))
+              /\ \E i \in 1..Len(fa) : CharwiseStr(st, fa[i]) /\ \E j \in 1..Len(fa[i].cs) : MapChar(md.cs, fa[i].cs[j]) > 127
+           THEN {"string_char_sign"} ELSE {})
+     \* 0.0 in extended precision gets the exponent 3C00h instead of 0 (ieeefloat.c Double_2_ieee10)
+     \cup (IF st.fmt \in {"ext80", "ext96"} /\ \E i \in 1..Len(fa) : IsZeroArg(fa[i]) THEN {"ext_zero"} ELSE {})
+     \* DC.C on a target whose code is kept in bytes picks the high byte from an uninitialised word
+     \* (motpseudo.c EnterIEEE2: Hi(pField[1]) instead of Hi(pField[0]))
+     \cup (IF sname = "DCC" /\ md.lg = 1 THEN {"half_bytewise_target"} ELSE {})
+     \* LONG of the TMS320C2x truncates silently (tipseudo.c wr_code_long has no range check)
+     \cup (IF sname = "TILONG" /\ \E i \in 1..Len(fa) : fa[i].k = "int" /\ ~InRange(fa[i].v, 4) THEN {"ti_long_range"} ELSE {})
 =============================================================================
